@@ -199,6 +199,48 @@ theorem fetchIns_spec [DecidableEq ρ] (S : Sem ρ) (vals : List ρ) (rk : Kids 
           | none => simp [hm2] at hm
           | some bs => simp [hm2] at hm; rw [← hm, h3 f' bs hm2, g3 f' b he]
 
+  | .multi [] :: r, kids, k', vs, hv, h => by
+    simp only [fetchIns] at h
+    cases hr : fetchIns S vals rk kids r with
+    | none => simp [hr] at h
+    | some p =>
+      obtain ⟨k, vs0⟩ := p
+      simp [hr] at h
+      obtain ⟨rfl, rfl⟩ := h
+      obtain ⟨h1, h2, h3, h4⟩ := fetchIns_spec S vals rk hrk r kids k vs0 hv hr
+      refine ⟨h1, h2, ?_, h4⟩
+      intro f' vs' hm
+      simp only [mapO, srcP] at hm
+      cases hm2 : mapO (srcP S vals fun s => evalP S f' vals (stripKids kids) s) r with
+      | none => simp [hm2] at hm
+      | some bs => simp [hm2] at hm; rw [← hm, h3 f' bs hm2]
+  | .multi (sib :: _) :: r, kids, k', vs, hv, h => by
+    simp only [fetchIns] at h
+    cases hs : rk kids sib with
+    | none => simp [hs] at h
+    | some p1 =>
+      obtain ⟨k1, o⟩ := p1
+      simp only [hs] at h
+      cases hr : fetchIns S vals rk k1 r with
+      | none => simp [hr] at h
+      | some p =>
+        obtain ⟨k2, vs0⟩ := p
+        simp [hr] at h
+        obtain ⟨rfl, rfl⟩ := h
+        obtain ⟨g1, g2, g3, _, g5⟩ := hrk kids sib k1 o hv hs
+        obtain ⟨h1, h2, h3, h4⟩ := fetchIns_spec S vals rk hrk r k1 k2 vs0 g2 hr
+        rw [g1] at h1 h3 h4
+        refine ⟨h1, h2, ?_, fun l2 hl => h4 l2 (g5 l2 hl)⟩
+        intro f' vs' hm
+        simp only [mapO, srcP] at hm
+        cases he : evalP S f' vals (stripKids kids) sib with
+        | none => simp [he] at hm
+        | some b =>
+          simp only [he] at hm
+          cases hm2 : mapO (srcP S vals fun s => evalP S f' vals (stripKids kids) s) r with
+          | none => simp [hm2] at hm
+          | some bs => simp [hm2] at hm; rw [← hm, h3 f' bs hm2, g3 f' b he]
+
 theorem runAllL_spec [DecidableEq ρ] (S : Sem ρ) (vals : List ρ) (rk : Kids ρ → Nat → Option (Kids ρ × ρ))
     (hrk : RkSpec S vals rk) : ∀ (ls : List Nat) (kids k' : Kids ρ), ValidKids S kids →
     runAllL rk kids ls = some k' →
